@@ -25,6 +25,7 @@ import (
 	"testing"
 	"time"
 
+	"github.com/gotid/god/lib/store/sqlc"
 	"github.com/gotid/god/lib/store/sqlx"
 	"verif.local/vk"
 )
@@ -316,7 +317,11 @@ type c11OrmCase struct {
 	ElemPtr bool           `json:"elem_ptr,omitempty"`
 	Strict  bool           `json:"strict"`
 	Ctx     bool           `json:"ctx,omitempty"`
-	Path    string         `json:"path"` // conn tx stmt
+	Path    string         `json:"path"` // conn tx stmt sqlc
+	// IterFault k >= 0: driver.Rows.Next fails (non-EOF) when row k is fetched (k == number of
+	// rows: instead of the end of the result); -1 none. CloseFault: driver.Rows.Close fails.
+	IterFault  int  `json:"iter_fault"`
+	CloseFault bool `json:"close_fault,omitempty"`
 	Arg     bool           `json:"arg,omitempty"`
 	Cols    []c11Col       `json:"cols"`
 	Rows    [][]string     `json:"rows"` // printable
@@ -401,7 +406,7 @@ func c11GenOrmCase(r *rand.Rand) c11OrmCase {
 	c.ElemPtr = r.Intn(2) == 0
 	c.Strict = r.Intn(2) == 0
 	c.Ctx = r.Intn(2) == 0
-	c.Path = []string{"conn", "conn", "tx", "stmt"}[r.Intn(4)]
+	c.Path = []string{"conn", "conn", "tx", "stmt", "sqlc"}[r.Intn(5)]
 	c.Arg = r.Intn(2) == 0
 	nrows := 0
 	switch x := r.Intn(20); {
@@ -412,6 +417,14 @@ func c11GenOrmCase(r *rand.Rand) c11OrmCase {
 	default:
 		nrows = 2 + r.Intn(4)
 	}
+	c.IterFault = -1
+	if r.Intn(6) == 0 {
+		c.IterFault = r.Intn(nrows + 1)
+		if r.Intn(2) == 0 {
+			c.IterFault = 0
+		}
+	}
+	c.CloseFault = r.Intn(25) == 0
 	if c.Shape == "prim" {
 		c.Prim = c11PlainKinds[r.Intn(len(c11PlainKinds))]
 		c.Cols = []c11Col{{Name: "c", Leaf: 0, Kind: c.Prim}}
@@ -510,6 +523,10 @@ func c11GenOrmCase(r *rand.Rand) c11OrmCase {
 		c.vals = append(c.vals, row)
 		c.Rows = append(c.Rows, text)
 	}
+	if c.IterFault >= 0 && c.Method == "rows" && c.Unspecified == "" {
+		// the statement is silent about a multi-row result whose iteration fails part-way
+		c.Unspecified = "rows-iteration-fault"
+	}
 	if c.Unspecified != "" {
 		c.Path = "conn" // a panic in an unspecified case must not run into the transaction defect
 	}
@@ -546,6 +563,19 @@ func c11Query(c *c11OrmCase, conn sqlx.Conn, dest any) error {
 	switch c.Path {
 	case "tx":
 		return conn.Transact(onSession)
+	case "sqlc":
+		cc := sqlc.NewConnWithCache(conn, nil)
+		switch {
+		case c.Method == "row" && c.Strict && !c.Ctx:
+			return cc.QueryRowNoCache(dest, q, args...)
+		case c.Method == "row" && c.Strict:
+			return cc.QueryRowNoCacheCtx(c11Bg, dest, q, args...)
+		case c.Method == "rows" && c.Strict && !c.Ctx:
+			return cc.QueryRowsNoCache(dest, q, args...)
+		case c.Method == "rows" && c.Strict:
+			return cc.QueryRowsNoCacheCtx(c11Bg, dest, q, args...)
+		}
+		return onSession(conn) // sqlc has no Partial variants
 	case "stmt":
 		st, err := conn.Prepare(q)
 		if err != nil {
@@ -642,6 +672,12 @@ func c11RunOrm(m *vk.M, idx int, c *c11OrmCase) (st c11OrmStats) {
 		}
 		res.Rows = append(res.Rows, dr)
 	}
+	if c.IterFault >= 0 {
+		res.Fail, res.FailRow = true, c.IterFault
+	}
+	if c.CloseFault {
+		res.CloseErr = errors.New("c11 fault rows-close")
+	}
 	rec.results = []c11Result{res}
 	db, closeDB, err := c11Open(rec)
 	if err != nil {
@@ -695,6 +731,18 @@ func c11RunOrm(m *vk.M, idx int, c *c11OrmCase) (st c11OrmStats) {
 		if nrows == 0 {
 			what = "empty-result"
 		}
+		if c.Unspecified == "rows-iteration-fault" {
+			what = "error"
+			switch {
+			case panicked:
+				what = "panic"
+			case qerr == nil:
+				what = fmt.Sprintf("nil-with-%d-of-%d-rows", dest.Elem().Len(), nrows)
+				if dest.Elem().Len() < nrows {
+					what = "nil-truncated-slice"
+				}
+			}
+		}
 		m.Count("unspecified:"+c.Unspecified+":"+what, 1)
 		st.class = "unspecified:" + c.Unspecified
 		return
@@ -719,6 +767,32 @@ func c11RunOrm(m *vk.M, idx int, c *c11OrmCase) (st c11OrmStats) {
 			}
 		}
 		missingNames = len(have) < nleaves
+	}
+
+	// --- faults while the result is being read
+	if c.Method == "row" && c.IterFault == 0 {
+		// the fetch of the first row failed at the driver: the result is not "empty"
+		switch {
+		case qerr == nil:
+			m.Violate("C11:orm:row:iteration-error-swallowed", desc, "driver.Rows.Next failed on the first row (%v) but the single-row query returned nil; path=%s shape=%s mode=%s", c11ErrFetch, c.Path, c.Shape, mode)
+			st.class = "violation"
+		case errors.Is(qerr, sqlx.ErrNotFound):
+			m.Violate("C11:orm:row:iteration-error-reported-as-ErrNotFound", desc, "driver.Rows.Next failed on the first row (%v, result scripted with %d rows) but the single-row query reported ErrNotFound (= empty result); path=%s shape=%s mode=%s", c11ErrFetch, nrows, c.Path, c.Shape, mode)
+			st.class = "violation"
+		case errors.Is(qerr, c11ErrFetch):
+			st.class = "row:fetch-fault:driver-error-returned"
+		default:
+			st.class = "row:fetch-fault:other-error"
+		}
+		return
+	}
+	if qerr != nil && (c.CloseFault || c.IterFault > 0) && !(nrows > 0 && errors.Is(qerr, sqlx.ErrNotFound)) && !(fewer && nrows > 0) {
+		// a failing Rows.Close / a failing fetch behind the row that was asked for may or
+		// may not be surfaced; surfacing it as an error (not as "empty") is legitimate
+		if errors.Is(qerr, c11ErrFetch) || strings.Contains(qerr.Error(), "c11 fault rows-close") {
+			st.class = "late-read-fault:surfaced"
+			return
+		}
 	}
 
 	// --- expected errors
@@ -813,7 +887,7 @@ func c11RunOrm(m *vk.M, idx int, c *c11OrmCase) (st c11OrmStats) {
 
 // TestVerifC11Orm: seeded destination shapes x result sets.
 func TestVerifC11Orm(t *testing.T) {
-	m := vk.New(t, "C11", "seeded cases: destination {fully db-tagged struct, untagged struct incl. embedded structs/pointers up to depth 2, primitive} built with reflect.StructOf over 27 field kinds (ints, uints, floats, string, bool, []byte, time.Time, sql.Null*, pointers) x {QueryRow, QueryRows into []T / []*T} x {strict, Partial} x {plain, Ctx} x {connection, transaction session, prepared statement} x result set {0, 1, 2-5 rows; columns permuted, dropped, unknown extras; NULLs; native and text encodings}; oracle: every field equals the value of its column (by tag name / by position), fields without a column stay zero, empty single-row result => ErrNotFound, strict with fewer columns than fields => error; non-trivial = a verdict was drawn from a non-empty result or an error path")
+	m := vk.New(t, "C11", "seeded cases: destination {fully db-tagged struct, untagged struct incl. embedded structs/pointers up to depth 2, primitive} built with reflect.StructOf over 27 field kinds (ints, uints, floats, string, bool, []byte, time.Time, sql.Null*, pointers) x {QueryRow, QueryRows into []T / []*T} x {strict, Partial} x {plain, Ctx} x {connection, transaction session, prepared statement, sqlc NoCache} x result set {0, 1, 2-5 rows; columns permuted, dropped, unknown extras; NULLs; native and text encodings; driver.Rows.Next failing at row k; Rows.Close failing}; oracle: a single-row query whose first-row fetch failed returns an error that is not ErrNotFound; every field equals the value of its column (by tag name / by position), fields without a column stay zero, empty single-row result => ErrNotFound, strict with fewer columns than fields => error; non-trivial = a verdict was drawn from a non-empty result or an error path")
 	defer m.Done()
 	n := vk.N(4000, 300000)
 	r := m.Rand("orm")
@@ -853,7 +927,7 @@ func TestVerifC11Orm(t *testing.T) {
 	for k, v := range shapes {
 		m.Count("shape_"+k, v)
 	}
-	m.Note("not asserted, only counted (unspecified:*): untagged destination with more columns than fields; NULL into a non-nullable field; structs mixing tagged and untagged/embedded fields")
+	m.Note("not asserted, only counted (unspecified:*): untagged destination with more columns than fields; NULL into a non-nullable field; structs mixing tagged and untagged/embedded fields; multi-row query whose iteration fails at row k (rows-iteration-fault: the current code returns nil with the rows fetched so far)")
 }
 
 // ---- a few hand-declared destination types (no reflect.StructOf involved) ----------
@@ -1115,4 +1189,75 @@ func TestVerifC11OrmStatic(t *testing.T) {
 		}
 	}
 	m.Sample(map[string]any{"tagged_type": "Name string `db:name`; ID uint32 `db:id`; Score *float64 `db:score`; Note sql.NullString `db:note,omitempty`; At time.Time `db:created_at`", "permutations": len(perms), "cases": idx})
+}
+
+// TestVerifC11RowFetchFault: deterministic sweep of every single-row entry point with a
+// driver fault on the fetch of the FIRST row (driver.Rows.Next returns a non-EOF error):
+// the result is not empty, so the call must fail with something that is not ErrNotFound.
+// Control rows: the same entry point on a truly empty result (=> ErrNotFound) and on an
+// intact one-row result (=> value copied).
+func TestVerifC11RowFetchFault(t *testing.T) {
+	m := vk.New(t, "C11", "complete sweep: single-row entry point {conn, tx session, prepared statement, sqlc NoCache} x {strict, Partial} x {plain, Ctx} x destination {primitive, tagged struct, untagged struct} x scripted rows {0,1,3} x {first-row fetch fails at the driver, intact}; oracle: fetch fault => error, not ErrNotFound; empty => ErrNotFound; intact => first row copied; non-trivial = always")
+	defer m.Done()
+	r := m.Rand("fetch")
+	idx := 0
+	classes := map[string]int64{}
+	for _, path := range []string{"conn", "tx", "stmt", "sqlc"} {
+		for _, strict := range []bool{true, false} {
+			for _, ctx := range []bool{false, true} {
+				for _, shape := range []string{"prim", "tagged", "untagged"} {
+					for _, nrows := range []int{0, 1, 3} {
+						for _, fault := range []int{0, -1} {
+							idx++
+							c := c11OrmCase{Shape: shape, Method: "row", Strict: strict, Ctx: ctx, Path: path, Arg: idx%2 == 0, IterFault: fault}
+							if shape == "prim" {
+								c.Prim = c11PlainKinds[idx%len(c11PlainKinds)]
+								c.Cols = []c11Col{{Name: "c", Leaf: 0, Kind: c.Prim}}
+							} else {
+								spec := c11StructSpec{Fields: []c11FieldSpec{{Name: "F0", Kind: "int64"}, {Name: "F1", Kind: "string"}, {Name: "F2", Kind: "*float64"}}}
+								order := []int{0, 1, 2}
+								if shape == "tagged" {
+									spec.Fields[0].Tag, spec.Fields[1].Tag, spec.Fields[2].Tag = "id", "name", "score"
+									order = []int{2, 0, 1}
+								}
+								c.Spec = &spec
+								for _, li := range order {
+									name := spec.Fields[li].Tag
+									if name == "" {
+										name = fmt.Sprintf("c%d", li)
+									}
+									c.Cols = append(c.Cols, c11Col{Name: name, Leaf: li, Kind: spec.Fields[li].Kind})
+								}
+							}
+							for i := 0; i < nrows; i++ {
+								var row []c11Val
+								var text []string
+								for _, col := range c.Cols {
+									v := c11GenVal(r, col.Kind, false)
+									row, text = append(row, v), append(text, v.Text)
+								}
+								c.vals, c.Rows = append(c.vals, row), append(c.Rows, text)
+							}
+							if !m.Only(idx) {
+								continue
+							}
+							st := c11RunOrm(m, idx, &c)
+							if st.class == "inconclusive" {
+								return
+							}
+							classes[st.class]++
+							m.Case(vk.Digest(vk.JSON(c)), true)
+							if fault == 0 && nrows == 1 && shape == "tagged" && strict && !ctx {
+								m.Sample(map[string]any{"case": c, "observed": st.class})
+							}
+						}
+					}
+				}
+			}
+		}
+	}
+	for k, v := range classes {
+		m.Count("class_"+k, v)
+	}
+	m.Extra("exhaustive", true)
 }
